@@ -67,6 +67,8 @@ typedef struct {
     int         api_depth;
     int         joined;
     int64_t     prio;      /* PCT */
+    uintptr_t   bpc[12];   /* return addresses (frame-pointer chain) captured when the thread last blocked */
+    int         nbpc;
 } Thr;
 static Thr            thr[MAXT];
 static int            nthr;
@@ -85,6 +87,8 @@ static uint64_t       pct_points[64];
 static int            pct_next;
 static SimEventFn     g_sink;
 static int            g_fatal_in_progress;
+static uint64_t       fine_rng;
+static void           fine_reset(void);
 
 enum { O_MUTEX = 1, O_SEM = 2, O_COND = 3 };
 typedef struct { void *addr; int kind; int id; int owner; long count; } Obj;
@@ -111,6 +115,11 @@ void sim_describe(char *buf, size_t n) {
         if (thr[i].state >= T_BLK_MUTEX && thr[i].state <= T_BLK_JOIN) o += snprintf(buf + o, n - o, "@%s%d", thr[i].state == T_BLK_JOIN ? "t" : "o", thr[i].obj);
         o += snprintf(buf + o, n - o, " ");
     }
+}
+size_t sim_blocked_pcs(int tid, uintptr_t *out, size_t n) {
+    if (tid < 0 || tid >= nthr || thr[tid].state < T_BLK_MUTEX || thr[tid].state > T_BLK_JOIN) return 0;
+    size_t k = 0; for (; k < (size_t)thr[tid].nbpc && k < n; k++) out[k] = thr[tid].bpc[k];
+    return k;
 }
 static void fatal(const char *cls, const char *fmt, ...) __attribute__((noreturn));
 static void fatal(const char *cls, const char *fmt, ...) {
@@ -147,7 +156,7 @@ static void obj_del(void *a, int kind) {
 }
 
 /* ---- scheduler ------------------------------------------------------------------------ */
-enum { K_NORMAL = 0, K_BLOCKED = 1, K_YIELD = 2 };
+enum { K_NORMAL = 0, K_BLOCKED = 1, K_YIELD = 2, K_PREEMPT = 3 /* forced preemption at a function boundary (fine variant) */ };
 static int is_starved(int t) {
     if (cfg.policy != POL_STARVE) return 0;
     if (cfg.starve_tid >= 0) return t == cfg.starve_tid;   /* starve_tid 0 = a slow application: it only proceeds when the library has nothing to do */
@@ -160,6 +169,11 @@ static void record_dev(int tid) {
 }
 static void schedule(int kind) {
     int cur = me;
+    if (kind == K_BLOCKED) {   /* where does it wait: remembered for the wait-for signature of a decided deadlock */
+        uintptr_t *fp = (uintptr_t *)__builtin_frame_address(0); int k = 0;
+        while (fp && k < 12) { uintptr_t ret = fp[1], *nx = (uintptr_t *)fp[0]; if (!ret) break; thr[cur].bpc[k++] = ret; if (nx <= fp || (uintptr_t)nx - (uintptr_t)fp > (1u << 20)) break; fp = nx; }
+        thr[cur].nbpc = k;
+    }
     if (kind != K_YIELD) { yield_streak = 0; thr[cur].spinning = 0; } else { thr[cur].spinning = 1; yield_streak++; }
     st.decisions++;
     clock_ns += cfg.clock_quantum_ns;
@@ -168,6 +182,10 @@ static void schedule(int kind) {
     if (yield_streak > 400000) { char b[2048]; sim_describe(b, sizeof b); fatal("LIVELOCK", "yield_streak=%lu %s", (unsigned long)yield_streak, b); }
 
     int R[MAXT], n = 0, stalled = -1;
+    if (cfg.api_stall_permille && cur == 0 && thr[0].api_depth > 0 && kind == K_NORMAL &&
+        !(cfg.stall_len && st.decisions < cfg.stall_at + cfg.stall_len) && coin(cfg.api_stall_permille)) {
+        cfg.stall_at = st.decisions; cfg.stall_tid = 0; cfg.stall_len = 1 + rnd() % (cfg.api_stall_len ? cfg.api_stall_len : 1000);
+    }
     if (cfg.stall_len && st.decisions >= cfg.stall_at && st.decisions < cfg.stall_at + cfg.stall_len) stalled = cfg.stall_tid;
     for (int i = 0; i < nthr; i++) if (thr[i].state == T_RUNNABLE && i != stalled) R[n++] = i;
     if (n == 0 && stalled >= 0 && stalled < nthr && thr[stalled].state == T_RUNNABLE) R[n++] = stalled; else if (stalled >= 0 && stalled < nthr && thr[stalled].state == T_RUNNABLE) st.stall_fired++;
@@ -177,7 +195,7 @@ static void schedule(int kind) {
 
     /* canonical non-preemptive choice */
     int np;
-    if (kind == K_NORMAL && cur_ok) np = cur;
+    if ((kind == K_NORMAL || kind == K_PREEMPT) && cur_ok) np = cur;
     else if (kind == K_YIELD) {
         np = -1;
         for (int i = 0; i < n; i++) if (R[i] != cur && !thr[R[i]].spinning) { np = R[i]; break; }
@@ -218,6 +236,9 @@ static void schedule(int kind) {
         }
         break;
     }
+    if (kind == K_PREEMPT && cfg.policy != POL_NP && cfg.policy != POL_EXPLICIT && ch == cur && n > 1) {
+        int k = (int)(rnd() % (unsigned)(n - 1)), idx = 0; for (int i = 0; i < n; i++) if (R[i] != cur) { if (idx == k) { ch = R[i]; break; } idx++; }
+    }
     if (ch != np) record_dev(ch);
     st.trace_hash = (st.trace_hash ^ (uint64_t)(ch + 1)) * 1099511628211ULL;
     if (ch == cur) return;
@@ -252,6 +273,7 @@ void sim_start(const SimConfig *c, SimFatalFn f) {
         for (int i = 0; i < cfg.pct_depth; i++) for (int j = i + 1; j < cfg.pct_depth; j++) if (pct_points[j] < pct_points[i]) { uint64_t t = pct_points[i]; pct_points[i] = pct_points[j]; pct_points[j] = t; }
     }
     me = 0; nthr = 1; thr[0].state = T_RUNNABLE; thr[0].joined_by = -1; thr[0].prio = (int64_t)(rnd() % 1000000);
+    fine_rng = (cfg.seed * 0x9e3779b97f4a7c15ULL) | 1; if (cfg.fine_period) fine_reset();
     g_on = 1;
 }
 void sim_stop(void) {
@@ -273,6 +295,21 @@ void sim_app_stall(int n) { for (int i = 0; i < n && g_on; i++) schedule(K_YIELD
 void sim_api_enter(void) { if (me >= 0) thr[me].api_depth++; }
 void sim_api_exit(void) { if (me >= 0) thr[me].api_depth--; }
 static inline int in_lib(void) { return me >= 0 && (thr[me].is_lib || thr[me].api_depth > 0); }
+
+/* ---- fine-grained preemption: the "fine" build variant compiles the library with -finstrument-functions ------------------ */
+static uint64_t fine_countdown, fine_rng = 0x243f6a8885a308d3ULL;
+static void fine_reset(void) { fine_rng ^= fine_rng << 13; fine_rng ^= fine_rng >> 7; fine_rng ^= fine_rng << 17; fine_countdown = 1 + fine_rng % (2 * cfg.fine_period); }
+void __cyg_profile_func_enter(void *fn, void *site) __attribute__((no_instrument_function));
+void __cyg_profile_func_exit(void *fn, void *site) __attribute__((no_instrument_function));
+void __cyg_profile_func_enter(void *fn, void *site) {
+    (void)fn; (void)site;
+    if (!g_on || !cfg.fine_period || me < 0) return;
+    st.fine_calls++;
+    if (--fine_countdown) return;
+    fine_reset(); st.fine_preemptions++;
+    schedule(K_PREEMPT);
+}
+void __cyg_profile_func_exit(void *fn, void *site) { (void)fn; (void)site; }
 
 /* hooks called from /repo (weak there) */
 void svt_verif_spin(void) { if (g_on) { st.spins++; schedule(K_YIELD); } }
